@@ -102,6 +102,7 @@ impl Engine for OwnEngine {
         if first.len() != 3 || first[0] != "cfg" { rec.op(lines.first().cloned().unwrap_or_default(), "bad-op"); return; }
         let mut wx = WorldExec::new(first[1], first[2]);
         rec.op(lines[0].clone(), "ok");
+        let mut tracker = SeenTracker::begin();
         for line in &lines[1..] {
             let w: Vec<&str> = line.split_whitespace().collect();
             let out = wx.op(line);
@@ -116,6 +117,9 @@ impl Engine for OwnEngine {
                 continue;
             }
             check_ledger(&wx, rec, line);
+            // identity, not only counts: a value seen through a handle (by a loader too) is not dropped / replaced while its key stays
+            if !SeenTracker::goi_targets().is_empty() { rec.stat("loader-get-or-insert"); }
+            for f in tracker.after_op(&wx, line, &wx.snapshot()) { rec.oracle_fail(f); }
             // the model's ghost ledger (created / gone, tracked types) against the real one, after every operation
             if w[0] != "ledger" && !wx.unspecified { let lo = wx.op("ledger"); rec.op("ledger".to_string(), lo); }
             if wx.unspecified { rec.stat(format!("truncated/{}", wx.unspecified_why)); break; }
